@@ -73,6 +73,13 @@ def case_st(draw):
         # 80 x 18 = 1440 sectors does not fit the 10-bit count: either the catalogue says 1023, or it uses the
         # "large disc" bit (bit 2 of byte 0x106 = bit 10 of the count)
         c["big_total"] = draw(st.booleans())
+        if kind == "inter" and dd and draw(st.integers(0, 2)) == 0:
+            # 16 sectors per track: recognised for an interleaved image when BOTH sides carry a catalogue (the
+            # 18-sector candidates then fail the other-side test)
+            c["spt"] = 16
+            c["tracks"] = draw(st.sampled_from([40, 80]))
+        # the same container gzip-compressed (the extension hints must survive the extra .gz)
+        c["gz"] = draw(st.integers(0, 3)) == 0
         if kind.endswith("trunc"):
             c["cut_sectors"] = draw(st.integers(1, c["spt"] * 3))
             c["cut_bytes"] = draw(st.sampled_from([0, 0, 1, 128, 255]))
@@ -93,7 +100,8 @@ class C04(CheckBase):
     rule = ("generated marker discs (valid catalogue on every surface, every other sector self-describing "
             "'<side/slot Ttt sss #lba>') in .ssd/.sdd (1 side), .dsd/.ddd (interleaved, 2 sides) and .mmb (1-6 "
             "populated slots from {0-3, 14-16, 30-32, 47 (table-sector boundaries), 254-256, 495, 496, 509, 510, random}, status bytes 00/0F/F0/FF) containers, "
-            "35/40/80 tracks x 10/18 sectors, optionally truncated, incl. surfaces that carry no catalogue at all (blank "
+            "35/40/80 tracks x 10/18 sectors (and 40/80 x 16 for interleaved images), a quarter of them gzip-compressed, "
+            "optionally truncated, incl. surfaces that carry no catalogue at all (blank "
             "side 1 of an 80-track .dsd, MMB slot marked present but holding junk) and two-sided NON-interleaved .ssd/.sdd "
             "whose catalogues carry the HDFS two-sides flag (the one such layout the prober recognises); for each attached drive dump-sector on tracks "
             "{0,1,mid,last} x all sectors, out-of-range track/sector, reads past a truncation point, type --binary "
@@ -186,8 +194,15 @@ class C04(CheckBase):
             cut = max(cut, 24 * 256 * (2 if inter else 1))
             data = data[:cut]
             v.classes.append("truncated")
-        img = sb.file("img." + case["ext"], data)
+        if case.get("gz"):
+            import gzip
+            img = sb.file("img." + case["ext"] + ".gz", gzip.compress(data, 1))
+            v.classes.append(case["ext"] + ".gz")
+        else:
+            img = sb.file("img." + case["ext"], data)
         v.classes.append(case["ext"])
+        if spt == 16:
+            v.classes.append("16-sectors-per-track")
         for si, side in enumerate(sides):
             drive = 0 if si == 0 else 2
 
